@@ -76,9 +76,11 @@ template<size_t N> class TestWB: public celma::common::WriteBuffer<N, celma::com
 {
 public:
    mutable std::vector<std::vector<uint8_t>> sink;
+   mutable bool failNext = false;     // the sink refuses the next write (once)
 protected:
    void writeData(const unsigned char* const data, size_t len) const override
    {
+      if (failNext) { failNext = false; throw std::runtime_error("sink refuses the data"); }
       sink.emplace_back(data, data + len);
    }
 };
@@ -87,10 +89,13 @@ template<size_t N> std::string runW(const std::vector<std::string>& w)
 {
    TestWB<N> wb;
    std::string prop, intl;
-   for (auto& o : vf::split(w[3], ','))
+   for (auto& o0 : vf::split(w[3], ','))
    {
       if (!prop.empty()) { prop += ' '; intl += ' '; }
       const size_t before = wb.sink.size();
+      // x<op>: the sink throws on the first write of this operation
+      const std::string o = o0[0] == 'x' ? o0.substr(1) : o0;
+      wb.failNext = o0[0] == 'x';
       try
       {
          if (o[0] == 'a')
@@ -131,6 +136,7 @@ template<size_t N> std::string runW(const std::vector<std::string>& w)
       {
          prop += "E:other"; intl += "[]";
       }
+      wb.failNext = false;
    }
    return prop + " ## " + intl;
 }
